@@ -247,6 +247,10 @@ func checkC18(p *Program, r *Report) {
 		// off the index array instead depends on how the stream's index was built (closing entry or not)
 		r.Unk("both totals are counted by a rank query at the last position", "", fmt.Sprintf("only %d of the two totals (inner nodes, all nodes) is obtained by a rank query at 64*len(words)-1 plus its bit", n))
 	}
+	// "KeyCnt is preserved when an equivalent legacy stream is loaded": a legacy single-key trie has no
+	// children entry; a loader that takes an empty children array for an empty trie reports 0 keys
+	r.Explanation += " (empty-legacy) no branch of the legacy loader decides emptiness from the children array alone (a legacy single-key trie has no children entry and one leaf)."
+	checkLegacyEmptiness(p, r, "C18.empty-legacy", underUnmarshal(p))
 }
 
 func init() { checks["C18"] = checkC18 }
